@@ -16,6 +16,36 @@ class EditHooks(SysHooks):
     def __init__(self, model, roles_, inline_names):
         super().__init__(model, roles_, inline_names)
 
+    def inline(self, fname):
+        """the named validation helpers, and any private method that itself modifies the graph or a registry (a helper
+        extracted from an edit method must be read as part of it)"""
+        r = super().inline(fname)
+        if r is not None:
+            return r
+        if fname.startswith("self._") and fname[5:].isidentifier():
+            m = self.model.own_method("System", fname[5:])
+            if m is not None and self.effectful(m):
+                return m, True
+        return None
+
+    def effectful(self, fn):
+        cache = self.model.__dict__.setdefault("_effectful", {})
+        if fn.name not in cache:
+            hit = False
+            for x in ast.walk(fn):
+                tg = x.targets if isinstance(x, (ast.Assign, ast.Delete)) else ([x.target] if isinstance(x, ast.AugAssign) else [])
+                for t in tg:
+                    for tt in (t.elts if isinstance(t, (ast.List, ast.Tuple)) else [t]):
+                        b = tt
+                        while isinstance(b, ast.Subscript):
+                            if registry_of(b) is not None:
+                                hit = True
+                            b = b.value
+                if isinstance(x, ast.Call) and isinstance(x.func, ast.Attribute) and x.func.attr in GRAPH_CALLS and isinstance(x.func.value, ast.Attribute) and x.func.value.attr == "_g":
+                    hit = True
+            cache[fn.name] = hit
+        return cache[fn.name]
+
     def contains(self, a, b):
         # x in D.keys()  ==  x in D
         if isinstance(b, Sym) and isinstance(b.key, tuple) and b.key and b.key[0] == "mcall" and b.key[2] == "keys" and not b.key[3]:
@@ -38,6 +68,21 @@ class EditHooks(SysHooks):
         return None
 
     def comprehension(self, sm, n, st):
+        # [f(k, v) for k, v in D.items() if c(k, v)]  reads like  [f(k, D[k]) for k in D if c(k, D[k])]
+        if isinstance(n, (ast.ListComp, ast.GeneratorExp)) and len(n.generators) == 1 and isinstance(n.generators[0].target, ast.Tuple) \
+                and len(n.generators[0].target.elts) == 2 and all(isinstance(e, ast.Name) for e in n.generators[0].target.elts) \
+                and isinstance(n.generators[0].iter, ast.Call) and isinstance(n.generators[0].iter.func, ast.Attribute) \
+                and n.generators[0].iter.func.attr == "items" and not n.generators[0].iter.args:
+            g = n.generators[0]
+            d = sm.expr(g.iter.func.value, st)
+            s2 = st.fork()
+            s2.env[g.target.elts[0].id] = Sym(("bound",))
+            s2.env[g.target.elts[1].id] = Sym(("sub", d, Sym(("bound",))))
+            elt = sm.expr(n.elt, s2)
+            conds = tuple(sm.cond(c, s2) for c in g.ifs)
+            if conds:
+                return Sym(("listcomp", vkey(elt), vkey(d), conds))
+            return Sym(("listcomp", vkey(elt), vkey(d)))
         if isinstance(n, (ast.ListComp, ast.GeneratorExp)) and len(n.generators) == 1 and isinstance(n.generators[0].target, ast.Name):
             g = n.generators[0]
             it = sm.expr(g.iter, st)
